@@ -131,12 +131,15 @@ CHECKS = {
               "outcomes must be those of a sequential order"),
         technique='Lean 4 proof over a hand interleaving model + discipline tables regenerated from source + controlled-schedule exploration', ref='4 C20'),
     'C06': dict(
-        text=("Lean theorems about the dump-side cache state machine (per-class key cache + dumper attributes): the first use of a "
-              "freshly defined family shows the specification, repeating a dump never changes it, operations on disjoint families in "
-              "between do not matter (all by induction over arbitrary operation lists); the machine reproduces the recorded leak and is "
-              "tied to the code by fingerprint correspondence on forked histories; oracle: every position of a history re-run alone in a "
-              "pristine forked child"),
-        technique='Lean 4 proof over a hand state machine + forked-history correspondence + replay oracle', ref='4 C06'),
+        text=("Lean theorems about both sides of the per-class state that survives a call. Load side: for any class, Meta, "
+              "per-field loaders and ANY sequence of earlier documents, every call of the generated loader with the key cache "
+              "returns what it returns in a fresh process (cache invariant by induction over the history; witness of the repaired "
+              "negative-cache defect). Dump side: cache state machine (per-class key cache + dumper attributes): the first use of a "
+              "freshly defined family shows the specification, repeating a dump never changes it, operations on disjoint families "
+              "in between do not matter (induction over arbitrary operation lists); the machine reproduces the recorded leak. Tie: "
+              "fingerprint correspondence on forked histories; oracle: every position of a history re-run alone in a pristine "
+              "forked child"),
+        technique='Lean 4 proof over hand state machines + forked-history correspondence + replay oracle', ref='4 C06'),
     'C07': dict(
         text=("Lean theorems: frame lemma and non-interference (C07_disjoint: any operations on other families leave a disjoint family's "
               "dump unchanged — induction over operation lists), witness of the shared-nested leak; same machine/correspondence as C06; "
